@@ -250,28 +250,28 @@ def i_CLZ(i, fmap):
 def i_CSEL(i, fmap):
     fmap[pc] = fmap[pc] + i.length
     dst, op1, op2, cond = i.operands
-    cond = CONDITION[i.cond ^ 1][1]
+    cond = CONDITION[i.cond][1]
     fmap[dst] = tst(fmap(cond), fmap(op1), fmap(op2))
 
 
 def i_CSINC(i, fmap):
     fmap[pc] = fmap[pc] + i.length
     dst, op1, op2, cond = i.operands
-    cond = CONDITION[i.cond ^ 1][1]
+    cond = CONDITION[i.cond][1]
     fmap[dst] = tst(fmap(cond), fmap(op1), fmap(op2) + 1)
 
 
 def i_CSINV(i, fmap):
     fmap[pc] = fmap[pc] + i.length
     dst, op1, op2, cond = i.operands
-    cond = CONDITION[i.cond ^ 1][1]
+    cond = CONDITION[i.cond][1]
     fmap[dst] = tst(fmap(cond), fmap(op1), fmap(~op2))
 
 
 def i_CSNEG(i, fmap):
     fmap[pc] = fmap[pc] + i.length
     dst, op1, op2, cond = i.operands
-    cond = CONDITION[i.cond ^ 1][1]
+    cond = CONDITION[i.cond][1]
     fmap[dst] = tst(fmap(cond), fmap(op1), fmap(-op2))
 
 
